@@ -1,7 +1,7 @@
 SPECIFICATION Spec
 CONSTANTS
-  MaxM = 7
-  K = 3
+  MaxM = 8
+  K = 4
   Thrs = {1, 2, 3, 8}
   EmitOps = TRUE
 INVARIANT Inv Emit
